@@ -394,7 +394,7 @@ fn exec_par<T: 'static + Send + Sync + Clone>(chain: &[Node], partitions: usize)
                         let mut next: Vec<Partition> = Vec::with_capacity(accs.len().div_ceil(f));
                         let mut it = accs.into_iter(); // take ownership to avoid clones
                         loop {
-                            let mut group: Vec<Partition> = Vec::with_capacity(f);
+                            let mut group: Vec<Partition> = Vec::with_capacity(f.min(it.len()));
                             for _ in 0..f {
                                 if let Some(p) = it.next() {
                                     group.push(p);
@@ -520,7 +520,7 @@ fn exec_par<T: 'static + Send + Sync + Clone>(chain: &[Node], partitions: usize)
                     let mut next: Vec<Partition> = Vec::with_capacity(accs.len().div_ceil(f));
                     let mut it = accs.into_iter();
                     loop {
-                        let mut group: Vec<Partition> = Vec::with_capacity(f);
+                        let mut group: Vec<Partition> = Vec::with_capacity(f.min(it.len()));
                         for _ in 0..f {
                             if let Some(p) = it.next() {
                                 group.push(p);
